@@ -92,9 +92,9 @@ def equal_copy(x):
 
 
 LIST_OPS = ['setitem_i', 'append', 'insert', 'extend', 'pop_i', 'pop_last', 'remove', 'clear', 'replace',
-            'assign', 'assign_bad', 'iadd', 'self_assign']
+            'assign', 'assign_bad', 'iadd', 'self_assign', 'copy_view']
 DICT_OPS = ['setitem_new', 'setitem_existing', 'update', 'update_kw', 'pop_key', 'remove', 'clear', 'replace',
-            'assign', 'assign_bad']
+            'assign', 'assign_bad', 'copy_view']
 
 
 def run_case(idx, rng, P, rep):
@@ -250,6 +250,16 @@ def run_case(idx, rng, P, rep):
                 trace.append((op, i, x))
                 o[i] = x
                 model_objs[i] = x
+            elif op == 'copy_view':
+                # taking a copy of the view (a snapshot of the objects) is reading: nothing changes, nobody is told
+                import copy as _copy
+                how_ = rng.choice(['copy', 'deepcopy', 'list', 'sorted-repr'])
+                trace.append((op, how_))
+                snap_ = _copy.copy(o) if how_ == 'copy' else _copy.deepcopy(o) if how_ == 'deepcopy' else list(o) if how_ == 'list' else sorted(map(repr, o))
+                if how_ in ('copy', 'list') and [id(x_) for x_ in snap_] != [id(x_) for x_ in model_objs]:
+                    viol('copy-of-view-differs', f'{how_} of the objects view gives {snap_!r}, model objects={model_objs!r}', op)
+                mutated = False
+                rep.count('view_copies')
             elif op == 'append':
                 x = fresh(rng)
                 trace.append((op, x))
